@@ -45,6 +45,8 @@ def npDot (a b : List Q) : Q := sumQ (List.zipWith (fun x y => x * y) a b)
 /-- `np.sum(a)` -/
 def npSum (xs : List Q) : Q := sumQ xs
 
+/-- `np.bincount(idx, minlength=n)` for indices below `n`: how often each of `0 … n−1` occurs -/
+def npBincount (idx : List Nat) (n : Nat) : List Q := (List.range n).map (fun j => ((idx.filter (fun i => i == j)).length : Q))
 /-- `a + b`, element by element -/
 def npAdd (a b : List Q) : List Q := List.zipWith (fun x y => x + y) a b
 /-- `a + s` / `a += s` with a scalar -/
